@@ -161,13 +161,13 @@ bool TypeChecker::isAssignableType(const Type* ty, const SyntaxNode* node)
 BasicTypeKind TypeChecker::performIntegerPromotion(BasicTypeKind basicTyK)
 {
     switch (basicTyK) {
+        // An int can represent all the values of these types (6.3.1.1-2).
         case BasicTypeKind::Bool:
-        case BasicTypeKind::Char_U:
-        case BasicTypeKind::Short_U:
-            return BasicTypeKind::Int_U;
-
+        case BasicTypeKind::Char:
         case BasicTypeKind::Char_S:
+        case BasicTypeKind::Char_U:
         case BasicTypeKind::Short_S:
+        case BasicTypeKind::Short_U:
             return BasicTypeKind::Int_S;
 
         case BasicTypeKind::Int_S:
